@@ -724,6 +724,32 @@ pub fn run(ctx: &mut Ctx) {
         ctx.op(&line, &ans);
         sq.cache = None;
     }
+    // ---- an item whose file fills the capacity exactly, then a re-open with the same capacity (C13): still tracked, counters exact
+    for round in 0..(if ctx.quick() { 12 } else { 100 }) {
+        let mut rng = ctx.rng.fork(0xE9AC + round);
+        let env = gen_env(ctx, &mut rng, 1, false);
+        let _ = std::fs::remove_dir_all(&root);
+        std::fs::create_dir_all(&root).unwrap();
+        let x = &env.xorbs[0];
+        let n = x.nchunks();
+        let s = rng.below(n as u64) as u32; let e = rng.range(s as u64 + 1, n as u64) as u32;
+        let (offs, data) = x.slice(s, e);
+        let range = ChunkRange { start: s, end: e };
+        let file_len = (data.len() + 4 * (offs.len() + 1)) as u64;
+        let cfg = CacheConfig { cache_directory: root.clone(), cache_size: file_len };
+        let replay = format!("{{\"suite\":\"cache_seq\",\"seed\":{},\"exact_capacity_round\":{round}}}", ctx.seed);
+        { let c = DiskCache::initialize(&cfg).unwrap(); c.put(&x.key, &range, &offs, data).unwrap();
+          let (n0, b0, _) = get_snapshot(&c);
+          if (n0, b0) != (1, file_len) { ctx.stat("exact_capacity_item_not_inserted"); continue; } }
+        let c = match guarded(|| DiskCache::initialize(&cfg)) { Ok(Ok(c)) => c, _ => { ctx.fail("C13", "reopen-failed", format!("re-open of a directory holding one item of exactly the capacity failed (round {round})"), replay); continue; } };
+        let (n1, b1, snap) = get_snapshot(&c);
+        let files: Vec<String> = walk_order(&root).into_iter().filter(|(_, d)| !*d).map(|(p, _)| p).collect();
+        let tracked: usize = snap.iter().map(|(_, v)| v.len()).sum();
+        if files.len() == 1 && (n1 != 1 || b1 != file_len || tracked != 1) {
+            ctx.fail("C13", "exact-capacity-item-untracked-after-reopen", format!("an item whose file has exactly the capacity ({file_len} bytes) was tracked before the re-open; after re-opening with the same capacity the cache reports {n1} items / {b1} bytes while the file is still on disk (round {round})"), replay);
+        }
+        ctx.stat("exact_capacity_rounds");
+    }
     // ---- a damaged file that the re-opened cache does not track (C12): put X, close, flip one bit of X's file (same length),
     // re-open with a capacity below the file's length (the start-up scan then leaves the file alone, untracked), put X again with the
     // original bytes, get X: a hit must carry the bytes that were put
